@@ -3,8 +3,8 @@
 Three ingredients (see tools/README.md):
   * kernel step: theorems of lean/QV/Props/C15*.lean (model: lean/QV/Model/Hamil.lean);
   * correspondence: the real `_get_symbol_matrix`, `terms`, `SymbolicTerm`, `h @ state`,
-    `expectation_from_samples` on exact Gaussian-integer data vs the Lean model
-    (driver lean/DriverC15.lean);
+    `expectation_from_samples`, the algebra over call histories (`_compose`, cached `terms`,
+    `constant`) on exact Gaussian-integer data vs the Lean model (driver lean/DriverC15.lean);
   * direct search on the real code against plain numpy arithmetic (the SPEC).
 """
 from __future__ import annotations
@@ -1535,6 +1535,309 @@ def corr_models(ctx):
 
 
 # ---------------------------------------------------------------------------
+# correspondence + search: the algebra of SymbolicHamiltonian objects over call histories
+# (lean/QV/Model/HamilAlg.lean): objects are created, read (`h @ state` parses `terms`),
+# combined (+ - @ scalar multiples, scalar shifts, c - h) in any order; every object must
+# answer as the plain matrix arithmetic says, whatever was read from the operands before.
+
+HIST_SCALARS = [2, -3, 1j, (2 - 1j), -1, 0, 3.0, (1 + 2j), -2, 1.5, -0.5]
+HIST_USES = ["terms", "matmul", "expectation", "matmul", "terms"]
+
+
+def _hist_scalar_src(c):
+    if isinstance(c, np.floating):
+        return f"np.float64({float(c)!r})"
+    return repr(c)
+
+
+def _const_part(rng, g, n):
+    """an additive part that ends up in `constant`: a number, Z0*Z0, an even Pauli power."""
+    k = rng.random()
+    q = rng.randrange(n)
+    if k < 0.35:
+        return ("c", g.coeff(gaussian=rng.random() < 0.4))
+    if k < 0.5:
+        return ("c", rng.choice([1.5, -0.5, 2.5]))
+    if k < 0.7:
+        p = rng.choice("XYZ")
+        return ("*", ("s", p, q), ("s", p, q))
+    if k < 0.85:
+        return ("^", ("s", rng.choice("XYZ"), q), rng.choice([2, 4]))
+    return ("sm", rng.choice([2, -3, 1j]), ("^", ("s", rng.choice("XYZ"), q), 2))
+
+
+def _all_routes(h, M, n, psi, rho):
+    """every route of an object against plain matrix arithmetic; returns the name of the
+    first route that differs (None if all agree) and what was observed."""
+    try:
+        v = np.asarray(h @ psi)
+        if not close(v, M @ psi):
+            return "matmul:state", v
+        r = np.asarray(h @ rho)
+        if not close(r, M @ rho):
+            return "matmul:dm", r
+        e = h.expectation(psi)
+        if not close(e, np.real(np.vdot(psi, M @ psi)), 1e-8):
+            return "expectation:state", e
+        e = h.expectation(rho)
+        if not close(e, np.real(np.trace(M @ rho)), 1e-8):
+            return "expectation:dm", e
+        T = term_list_matrix(h, n)
+        if not close(T, M):
+            return "terms+constant", T
+        D = np.asarray(h.matrix)
+        if not close(D, M):
+            return "matrix", D
+    except Exception as ex:  # noqa: BLE001
+        return f"raises:{type(ex).__name__}", str(ex)
+    return None, None
+
+
+ROUTES_SRC = TERM_MAT_SRC + (
+    "def routes(h, M, n, psi, rho):\n"
+    "    assert np.allclose(h @ psi, M @ psi, atol=1e-9), 'h @ psi'\n"
+    "    assert np.allclose(h @ rho, M @ rho, atol=1e-9), 'h @ rho'\n"
+    "    assert abs(h.expectation(psi) - np.real(np.vdot(psi, M @ psi))) < 1e-7, 'expectation(psi)'\n"
+    "    assert abs(h.expectation(rho) - np.real(np.trace(M @ rho))) < 1e-7, 'expectation(rho)'\n"
+    "    assert np.allclose(term_list_matrix(h, n), M, atol=1e-9), 'terms + constant'\n"
+    "    assert np.allclose(h.matrix, M, atol=1e-9), 'matrix'\n"
+)
+
+
+def corr_history(ctx):
+    """histories of SymbolicHamiltonian objects: operands fresh or already used (terms /
+    h @ psi / expectation / matrix), + - @ in both orders, scalars on either side, chains;
+    every route of every object vs plain numpy arithmetic, and h @ psi / constant vs the
+    Lean model of the history (when all scalars are Gaussian integers)."""
+    import sympy
+
+    from qibo.hamiltonians import SymbolicHamiltonian
+
+    rng = ctx.rng
+    N = 110 if ctx.thorough else 44
+    lines, meta = [], []
+    for it in range(N):
+        n = rng.choice([1, 2, 2, 3])
+        g = FormGen(rng, n, ncustom=rng.choice([0, 0, 0, 1]))
+        ids = SymIds()
+        nobj0 = rng.choice([2, 2, 3])
+        objs, mats, names, monos, toks = [], [], [], [], []
+        modelable = True
+        src = PRE + ROUTES_SRC + custom_src(g.custom, g.qubit_of) + f"n = {n}\n"
+        psi0 = int_state(rng, n, -1, 1)
+        src += f"psi0 = {arr_src(psi0)}\n"
+        ok_case = True
+        for k in range(nobj0):
+            f = g.form(depth=rng.choice([0, 1, 1, 2]))
+            if it % 4 != 3 or rng.random() < 0.5:
+                # an identity component: what `constant` collects
+                f = (rng.choice("+-"), f, _const_part(rng, g, n))
+            if mono_count(f) > 40:
+                ok_case = False
+                break
+            style = rng.choice(["py", "sym", "int"])
+            e, _ = build_expr(f, style, g.custom, g.qubit_of)
+            e = sympy.sympify(e)
+            try:
+                toks.append("N " + ast_tokens(f, _NameGen(g), ids))
+            except ValueError:
+                modelable = False
+            objs.append(SymbolicHamiltonian(e, nqubits=n))
+            mats.append(spec_matrix(f, n, g.custom))
+            monos.append(mono_count(f))
+            names.append("new")
+            src += f"h{k} = SymbolicHamiltonian(sympy.sympify({form_src(f, style)}), nqubits=n); M{k} = {spec_src(f, n)}\n"
+        if not ok_case:
+            ctx.stat("hist_skipped")
+            continue
+        parsed = set()
+
+        def use(i, how=None):
+            """the operand is used before the composition (terms / @ / expectation parse the
+            term list; matrix does not)."""
+            nonlocal src
+            how = how or rng.choice(HIST_USES + ["matrix"])
+            if how == "terms":
+                objs[i].terms
+                src += f"h{i}.terms\n"
+            elif how == "matmul":
+                objs[i] @ psi0
+                src += f"h{i} @ psi0\n"
+            elif how == "expectation":
+                objs[i].expectation(psi0)
+                src += f"h{i}.expectation(psi0)\n"
+            else:
+                objs[i].matrix
+                src += f"h{i}.matrix\n"
+                ctx.stat("hist_use_matrix")
+                return
+            ctx.stat(f"hist_use_{how}")
+            parsed.add(i)
+            toks.append(f"T {i}")
+
+        for s in range(rng.randint(2, 5)):
+            r = rng.random()
+            k = len(objs)
+            i = rng.randrange(k) if rng.random() < 0.6 else k - 1
+            j = rng.randrange(k)
+            if r < 0.1:
+                use(i)
+                continue
+            if r < 0.65:
+                op = rng.choice(["+", "-", "-", "-", "@"])
+                if op == "@" and monos[i] * monos[j] > 60:
+                    op = "-"
+                pre = rng.random()
+                if pre < 0.5:  # both operands already parsed
+                    use(i, rng.choice(HIST_USES))
+                    use(j, rng.choice(HIST_USES))
+                elif pre < 0.7:
+                    use(rng.choice([i, j]))
+                new = _apply_op(op, objs[i], objs[j])
+                newM = _apply_op(op, mats[i], mats[j])
+                toks.append({"+": "A", "-": "B", "@": "M"}[op] + f" {i} {j}")
+                src += f"h{k} = h{i} {op} h{j}; M{k} = M{i} {op} M{j}\n"
+                monos.append(monos[i] * monos[j] if op == "@" else monos[i] + monos[j])
+                state = "parsed-operands" if i in parsed and j in parsed else ("fresh-operands" if i not in parsed and j not in parsed else "mixed-operands")
+                names.append((op, state))
+            else:
+                c = rng.choice(HIST_SCALARS)
+                if isinstance(c, float) and rng.random() < 0.5:
+                    c = np.float64(c)
+                if rng.random() < 0.5:
+                    use(i)
+                cs = _hist_scalar_src(c)
+                I = np.eye(2**n)
+                kind = rng.choice(["*", "r*", "+", "r+", "-", "r-"])
+                new = _apply_op(kind, objs[i], c)
+                newM = {"*": mats[i] * c, "r*": c * mats[i], "+": mats[i] + c * I, "r+": c * I + mats[i], "-": mats[i] - c * I, "r-": c * I - mats[i]}[kind]
+                code = {"*": "K", "r*": "K", "+": "PA", "r+": "PA", "-": "PS", "r-": "RS"}[kind]
+                try:
+                    toks.append(f"{code} {gi(c)} {i}")
+                except ValueError:
+                    modelable = False
+                src += f"h{k} = {_op_src(kind, f'h{i}', cs)}; M{k} = " + {
+                    "*": f"M{i} * {cs}", "r*": f"{cs} * M{i}", "+": f"M{i} + {cs} * np.eye({2**n})", "r+": f"{cs} * np.eye({2**n}) + M{i}",
+                    "-": f"M{i} - {cs} * np.eye({2**n})", "r-": f"{cs} * np.eye({2**n}) - M{i}"}[kind] + "\n"
+                monos.append(monos[i] + 1)
+                names.append((f"scalar{kind}", "parsed-operands" if i in parsed else "fresh-operands"))
+            objs.append(new)
+            mats.append(newM)
+            ctx.stat(f"hist_step_{names[-1][0]}_{names[-1][1]}")
+            if np.abs(newM).max(initial=0) > 2**24:
+                break
+        psi = int_state(rng, n, -2, 2)
+        rho = int_dm(rng, n)
+        src += f"psi = {arr_src(psi)}\nrho = {arr_src(rho)}\n"
+        if modelable:
+            lines.append(f"HIST {n} {len(toks)} {' '.join(toks)} {gis(psi)}")
+            ctx.stat("hist_with_model")
+        else:
+            ctx.stat("hist_spec_only")
+        meta.append((n, objs, mats, names, src, psi, rho, len(lines) - 1 if modelable else None))
+    outs = run_driver(lines, driver=DRIVER)
+    bad = 0
+    for n, objs, mats, names, src, psi, rho, li in meta:
+        ctx.case(("corr-history", n, tuple(names), src[-300:]))
+        model = None
+        if li is not None:
+            halves = outs[li].split("||")
+            model = [[(parse_gis(o.split(";")[0])[0], parse_gis(o.split(";")[1])) for o in half.split("|")] for half in halves]
+            same_models = len(model) == 2 and len(model[0]) == len(model[1]) == len(objs) and all(
+                a[0] == b[0] and np.array_equal(a[1], b[1]) for a, b in zip(*model))
+            if not same_models:
+                # the two modelled implementations are proved equivalent (T15_history_act): never expected
+                bad += 1
+                fail(ctx, "history:model-inconsistent", "the fresh-parse and the term-reuse model disagree", src, broken=["C15_corr_history"])
+                continue
+        # newest objects first: the result of the last composition is the usual culprit
+        for k in reversed(range(len(objs))):
+            h = objs[k]
+            route, seen = _all_routes(h, mats[k], n, psi, rho)
+            corr_ok = True
+            if model is not None and route is None:
+                mc, mv = model[0][k]
+                corr_ok = np.array_equal(np.asarray(h @ psi).reshape(-1), mv) and close(complex(h.constant), mc)
+            if route is None and corr_ok:
+                continue
+            bad += 1
+            state = names[k][1] if names[k] != "new" else "new"
+            opn = names[k][0] if names[k] != "new" else "new"
+            if route is not None:
+                fail(ctx, zero_key(mats[k], f"algebra:history:{state}"),
+                     f"object h{k} of a history of symbolic Hamiltonians (made by {opn} from {state}): route {route} gives {np.asarray(seen).tolist() if not isinstance(seen, str) else seen}, "
+                     f"matrix arithmetic M{k} disagrees",
+                     src + f"routes(h{k}, M{k}, n, psi, rho)\n",
+                     expected=str((mats[k] @ psi).tolist()), observed=str(np.asarray(seen).tolist() if not isinstance(seen, str) else seen), broken=["C15_corr_history"])
+            break
+    ctx.ob("C15_corr_history", bad == 0, "correspondence", f"{bad} histories disagree" if bad else "")
+
+
+def samples_history_search(ctx):
+    """expectation_from_samples of sums / differences of already used diagonal observables."""
+    import sympy
+
+    from qibo.hamiltonians import SymbolicHamiltonian
+
+    rng = ctx.rng
+    allok = True
+    for it in range(40 if ctx.thorough else 14):
+        n = rng.choice([1, 2, 3])
+        f1, f2 = z_form(rng, n), z_form(rng, n)
+        if it % 2 == 0:
+            f1 = ("+", f1, ("c", rng.choice([2, -1, 0.5])))
+            f2 = ("+", f2, ("c", rng.choice([5, -3, 1.5])))
+        e1, _ = build_expr(f1, "py", {}, {})
+        e2, _ = build_expr(f2, "py", {}, {})
+        h1, h2 = SymbolicHamiltonian(sympy.sympify(e1), nqubits=n), SymbolicHamiltonian(sympy.sympify(e2), nqubits=n)
+        M1, M2 = spec_matrix(f1, n, {}), spec_matrix(f2, n, {})
+        keys = list(dict.fromkeys("".join(rng.choice("01") for _ in range(n)) for _ in range(rng.randint(1, 5))))
+        freq = {k: rng.randint(1, 30) for k in keys}
+        qm = list(rng.choice(list(itertools.permutations(range(n)))))
+        used = rng.choice(["both", "both", "first", "none"])
+        src = (PRE + f"n = {n}\nh1 = SymbolicHamiltonian(sympy.sympify({form_src(f1)}), nqubits=n); M1 = {spec_src(f1, n)}\n"
+               f"h2 = SymbolicHamiltonian(sympy.sympify({form_src(f2)}), nqubits=n); M2 = {spec_src(f2, n)}\nfreq = {freq!r}\nqm = {qm!r}\n")
+        if used in ("both", "first"):
+            h1.expectation_from_samples(dict(freq), qubit_map=list(qm))
+            src += "h1.expectation_from_samples(dict(freq), qubit_map=list(qm))\n"
+        if used == "both":
+            h2.expectation_from_samples(dict(freq), qubit_map=list(qm))
+            src += "h2.expectation_from_samples(dict(freq), qubit_map=list(qm))\n"
+        src += ("def ex(M):\n    tot = sum(freq.values()); d = np.real(np.diag(M)); out = 0.0\n    for k, c in freq.items():\n"
+                "        bits = [0] * n\n        for pos, q in enumerate(qm): bits[q] = int(k[pos])\n"
+                "        out += c / tot * d[int(''.join(map(str, bits)), 2)]\n    return out\n")
+        env = {}
+        for op in ("-", "+", "r-"):
+            a, b, Ma, Mb = (h1, h2, M1, M2) if op != "r-" else (h2, h1, M2, M1)
+            o = "-" if op == "r-" else op
+            an, bn = ("h1", "h2") if op != "r-" else ("h2", "h1")
+            Mn = f"M{an[1]} {o} M{bn[1]}"
+            M = Ma - Mb if o == "-" else Ma + Mb
+            tot = sum(freq.values())
+            d = np.real(np.diag(M))
+            want = 0.0
+            for k, c in freq.items():
+                bits = [0] * n
+                for pos, q in enumerate(qm):
+                    bits[q] = int(k[pos])
+                want += c / tot * d[int("".join(map(str, bits)), 2)]
+            ctx.case(("samples-history", form_src(f1), form_src(f2), op, used, tuple(qm), tuple(sorted(freq.items()))))
+            ctx.stat(f"samples_history_{used}")
+            try:
+                r = a - b if o == "-" else a + b
+                got = float(np.real(r.expectation_from_samples(dict(freq), qubit_map=list(qm))))
+            except Exception as exn:  # noqa: BLE001
+                got = float("nan")
+            if not close(got, want, 1e-9):
+                allok = False
+                ctx.fail(f"samples:history:{o}:{'parsed' if used == 'both' else 'fresh'}",
+                         f"({an} {o} {bn}).expectation_from_samples is {got}, frequency-weighted eigenvalues of the difference/sum give {want} (operands used before: {used})",
+                         src + f"got = ({an} {o} {bn}).expectation_from_samples(dict(freq), qubit_map=list(qm))\nassert abs(got - ex({Mn})) < 1e-9, (got, ex({Mn}))\n",
+                         expected=want, observed=got, broken=["C15_search_samples_history"])
+    ctx.ob("C15_search_samples_history", allok, "search", "" if allok else "see failing inputs")
+
+
+# ---------------------------------------------------------------------------
 
 
 def run(ctx):
@@ -1545,6 +1848,7 @@ def run(ctx):
     corr_forms(ctx)
     corr_samples(ctx)
     corr_models(ctx)
+    corr_history(ctx)
     # direct search on the real code against plain numpy arithmetic
     forms_search(ctx)
     algebra_search(ctx)
@@ -1552,6 +1856,7 @@ def run(ctx):
     samples_search(ctx)
     models_search(ctx)
     history_search(ctx)
+    samples_history_search(ctx)
     ctx.trusted += [
         "sympy: construction-time normalisation of expressions, `expand`, `as_coefficients_dict`, `as_ordered_terms/factors` keep the order of non-commutative symbols and denote the same element of the free algebra (the model's `expand` is compared with sympy's on every case: obligation C15_corr_expand_oracle)",
         "numpy kron / matmul / matrix_power / einsum on 2^n-dimensional arrays behave as the bit-label model of QV/Model/Hamil.lean (modelled, compared exactly on Gaussian-integer data on every run)",
@@ -1563,10 +1868,13 @@ def run(ctx):
         "h@psi, h@rho, term list (coefficients, ordered factors, target qubits, term matrices, constant) and sympy's expansion vs the Lean model, exactly; "
         "Z-string expectation_from_samples of both classes under all/random qubit-map permutations; TFIM and X/Y/Z builders n<=4(5). "
         "search: the same observables plus expectation (state/DM, normalize), algebra histories (+ - scalar @, both classes, mixed refused), "
-        "eigen/exp caches across scalar multiples of every sign, samples with dict/Counter/tuple maps/subset maps, all builders of models.py n<=5(6) vs explicit formulas, setters"
+        "eigen/exp caches across scalar multiples of every sign, samples with dict/Counter/tuple maps/subset maps, all builders of models.py n<=5(6) vs explicit formulas, setters; "
+        "algebra histories (lean/QV/Model/HamilAlg.lean): 2-3 symbolic objects, 2-6 steps of + - @ scalar multiples/shifts, c - h with operands read (h @ state) or fresh before each step — "
+        "every object's h @ state, expectation and constant vs the model (fresh-parse and term-reuse variants, proved equivalent) and vs matrix arithmetic; "
+        "expectation_from_samples of sums/differences of already used diagonal observables"
     )
     ctx.assumptions += [
         "expectation_from_circuit (shots, basis rotations) is outside the check",
-        "term matrix = kron of per-qubit products (T15_term_matrix_full), the complete term-list statement (T15_terms_denote_full), the dense samples index (T15_samples_dense_index_full) and the model builders for all n (T15_models_tfim_full) are stated but covered by correspondence/search only",
+        "sympy's normalisation of composed forms (h1 - h2 -> Add(f1, Mul(-1, f2)), collection of like terms) is trusted to keep the element of the free algebra; the history suite compares the resulting objects' action and constant with the model on every run",
         "sparse matrices and non-numpy backends are not exercised",
     ]
